@@ -469,7 +469,7 @@ package tls
 // fields.  Without an extension block everything about the result is stated (noext_*); with one,
 // ReadTLSExtensions (no frame, see above) leaves only the input-related facts.
 //@ func (*ClientHelloSpec).FromRaw
-//@   property C06 C07
+//@   property C06 C07 C05
 //@   let sid = raw[43]
 //@   let cs = raw[44+sid]*256 + raw[45+sid]
 //@   let cm = raw[46+sid+cs]
@@ -478,6 +478,8 @@ package tls
 //@   let htype = raw[5]
 //@   note cover:return9 (u_common.go:548, `return err` after ReadCompressionMethods) is dead: ReadCompressionMethods always returns nil
 //@   ensures nilrecv: chs == nil ==> ret != nil
+//@   at before call AlwaysPadToLen#0: assert pad_to_captured_length: arg0 == len(raw) - 5
+//@   note pad_to_captured_length (C05/C06): a captured padding extension is re-created with the policy "pad the ClientHello to the length of the captured one" (record header excluded)
 //@   ensures framing: ret == nil ==> len(raw) >= 44 && len(raw) >= 46 + sid && len(raw) >= 47 + sid + cs && len(raw) >= end && rtype == 22 && htype == 1 && cs % 2 == 0
 //@   ensures extblock: ret == nil && len(raw) > end ==> len(raw) >= end + 2 && len(raw) >= end + 2 + (old(raw[end])*256 + old(raw[end+1]))
 //@   ensures noext_ok: chs != nil && len(raw) >= 44 && len(raw) >= 46 + sid && len(raw) == end && rtype == 22 && htype == 1 && cs % 2 == 0 ==> ret == nil
